@@ -99,3 +99,18 @@ package gsm7encoding
 //@     invariant 0 <= count && count <= len(buffer)
 //@     invariant alloc <= entry(alloc) + 6 * count
 //@     decreases len(buffer) - count
+
+// packimg(s): the octets Pack returns for the septets s (Pack is a function of its argument; its bit-level meaning is
+// the contract of Pack above). Callers in integer mode see only this name.
+//@ uninterpreted packimg(Bytes) Bytes
+
+//@ func Pack
+//@   abstract dst == packimg(content(septets))
+
+// gsmseptets(s) / gsmencodable(s): the septets Encode returns for s and whether it accepts s (Encode is a function of its argument).
+//@ uninterpreted gsmseptets(Bytes) Bytes
+//@ uninterpreted gsmencodable(Bytes) bool
+
+//@ func Encode
+//@   abstract (err == nil) <==> gsmencodable(src)
+//@   abstract err == nil ==> content(dst) == gsmseptets(src)
